@@ -260,3 +260,7 @@ impl Insertion {
         self.replace_range.end = max(self.replace_range.end, end);
     }
 }
+
+#[cfg(all(aws_s2n_quic_verif, test))]
+#[path = "/verif/harness/core/iset_insert.rs"]
+mod verif;
